@@ -403,6 +403,10 @@ def lawfulInds : List Nat := [0, 1, 2, 3, 5, 6, 8, 9, 10, 11, 12, 16, 18, 19, 21
 def fixedRGB565 : Codec := ⟨4, true, true, loadRGB565, let c := compress565Fixed R G B; [c.1, c.2]⟩
 def fixedBGR565 : Codec := ⟨17, true, true, loadBGR565, let c := compress565Fixed B G R; [c.1, c.2]⟩
 
+/-- the documented quantisation applied to every pixel of an RGBA array. -/
+def quantImg (ind : Nat) (px : List Nat) : List Nat :=
+  (chunks 4 px).flatMap fun q => (quant ind (Px.ofList q)).toList
+
 /-! ## 3. Mipmaps -/
 
 /-- The dimension chain created by `VTF.__init__`: halve both until either is `≤ 1`
